@@ -69,6 +69,7 @@ RULE["C17"] += "; every second case takes the forward reference from ANOTHER fre
 RULE["C19"] += "; after each encoder check the same object is asked again 0-3 times after its log changed IN PLACE (entries overwritten, appended, inserted, deleted, reversed, cleared) or with another margin; the state queries are asked again 0-2 times after in-place log changes, a new member and other times"
 RULE["C11"] += "; every 8th case is a partial-operators model (facility tasks whose workplace has several skilled facilities of which each worker can operate only some, next to plain tasks); the inversion clause also covers higher-priority facility tasks"
 RULE["C19"] += "; 15 % of the encoder logs hold equal-but-not-identical members (plain ints, sibling enum)"
+RULE["C05"] += "; every 10th case is a feasible-specialist model (class 1: one specialist who can do everything and is individually absent now and then, helpers for some tasks, tasks only the specialist can do)"
 RULE["C10"] += "; every 8th case runs the in-step monitor over a BACKWARD run (both flags, due-time padding tasks), judged by the flag the caller passed"
 RULE["C12"] += "; the values are also checked at every observer phase 'updated' (whether or not update_PERT_data was called in that update); every 12th case pauses an FS network with an absence list, removes / inserts absence steps in the paused logs (the clock moves) and resumes"
 RULE["C20"] += "; half of the tasks are constructed with file_path, and every 4th case sends the configured parent project through write_simple_json / read_simple_json (result file still present) before it runs"
